@@ -86,6 +86,8 @@ struct KeyState {
 }
 
 struct H {
+    /// "<worker>:<history>" under the run's seed (see `replay_target`)
+    id: String,
     reps: Vec<Option<Sim>>,
     _scratch: Scratch,
     path_a: PathBuf,
@@ -137,7 +139,7 @@ fn parse_keys(entry: &Json) -> Vec<KeyState> {
 }
 
 /// state tag ("ea" / "nv" / "ra") of the session record `sid` inside attribute `attr`, if present
-fn session_state(entry: &Json, attr: &str, sid: Uuid) -> Option<String> {
+pub fn session_state(entry: &Json, attr: &str, sid: Uuid) -> Option<String> {
     fn walk(v: &Json, sid: &str) -> Option<String> {
         match v {
             Json::Object(m) => {
@@ -242,7 +244,7 @@ impl H {
     fn witness(&mut self, what: Json) -> Json {
         let la = self.reps[A].as_ref().map(|s| s.log_tail(25)).unwrap_or_default();
         let lb = self.reps[B].as_ref().map(|s| s.log_tail(25)).unwrap_or_default();
-        json!({"what": what, "now": self.now, "seq": self.seq,
+        json!({"what": what, "now": self.now, "seq": self.seq, "history": self.id,
                "revocations_known": {
                    "A": self.knows_rev[A].iter().map(|((o, k), (s, r))| json!({"obj": o.to_string(), "kid": k, "since_seq": s, "by_replication": r})).collect::<Vec<_>>(),
                    "B": self.knows_rev[B].iter().map(|((o, k), (s, r))| json!({"obj": o.to_string(), "kid": k, "since_seq": s, "by_replication": r})).collect::<Vec<_>>()},
@@ -327,6 +329,7 @@ async fn setup(rng: &mut Rng, start: u64, with_rs256: bool) -> Result<H, String>
     }
     let now = a.now + 1;
     let mut h = H {
+        id: String::new(),
         reps: vec![Some(a), Some(b)],
         _scratch: scratch,
         path_a,
@@ -958,7 +961,7 @@ fn op_advance(h: &mut H, acc: &mut Acc, rng: &mut Rng) {
     h.now += step;
 }
 
-async fn history(acc: &mut Acc, rng: &mut Rng, ops: u64, with_rs256: bool) {
+async fn history(acc: &mut Acc, rng: &mut Rng, ops: u64, with_rs256: bool, id: String) {
     let start = kvcore::srv::T0.as_secs() + rng.below(10_000_000);
     let mut h = match setup(rng, start, with_rs256).await {
         Ok(h) => h,
@@ -967,6 +970,7 @@ async fn history(acc: &mut Acc, rng: &mut Rng, ops: u64, with_rs256: bool) {
             return;
         }
     };
+    h.id = id;
     // some material to begin with
     for x in [A, B, A] {
         op_flow(&mut h, acc, rng, x).await;
@@ -1021,7 +1025,8 @@ async fn history(acc: &mut Acc, rng: &mut Rng, ops: u64, with_rs256: bool) {
     h.reps.clear();
 }
 
-pub fn run(args: Args) {
+pub fn run(mut args: Args) {
+    let only = replay_target(&mut args);
     let mut run = Run::new(
         args.clone(),
         "exploration",
@@ -1036,9 +1041,13 @@ pub fn run(args: Args) {
         let mut acc = Acc::new();
         let rt = kvcore::srv::rt();
         for hno in 0..histories {
+            let id = format!("{w}:{hno}");
+            if only.as_ref().map(|o| *o != id).unwrap_or(false) {
+                continue;
+            }
             let mut rng = Rng::new(kvcore::rng::mix(seed, w as u64, 3400 + hno));
             let with_rs256 = (w as u64 + hno) % 4 == 0;
-            let res = run_case(|| rt.block_on(history(&mut acc, &mut rng, ops, with_rs256)));
+            let res = run_case(|| rt.block_on(history(&mut acc, &mut rng, ops, with_rs256, id)));
             if let Err(p) = res {
                 acc.count("panic_in_case");
                 acc.inconclusive(&format!("panic during a C34 history: {p}"));
@@ -1069,9 +1078,15 @@ pub fn run(args: Args) {
         (a.get("replicate.err") == 0, "incremental replication failed in the harness".into()),
     ];
     for (ok, why) in checks {
-        run.require(ok, &why);
+        // a replay of one history is judged by its oracle alone
+        if only.is_none() {
+            run.require(ok, &why);
+        }
     }
-    if args.tier == kvcore::Tier::Thorough {
+    if let Some(o) = &only {
+        run.extra("replay_of_history", json!(o));
+    }
+    if args.tier == kvcore::Tier::Thorough && only.is_none() {
         let ok = run.acc.get("rejected_revoked.rs256-access") + run.acc.get("accepted.rs256-access") > 0;
         run.require(ok, "RS256 client never exercised");
     }
